@@ -4,6 +4,8 @@ cd /verif
 names=${@:-$(ls seeded)}
 for n in $names; do
   prop=$(/venv/bin/python -c "import json;print(json.load(open('seeded/$n/meta.json'))['property'])")
+  obs=$(/venv/bin/python -c "import json;print(json.load(open('seeded/$n/meta.json')).get('obsolete',''))")
+  if [ -n "$obs" ]; then echo "OBSOLETE $n :: $obs"; continue; fi
   r=$(tools/try_seed.sh seeded/$n/patch.diff - $prop 2>&1 | grep -e "^$prop: exit" -e "patch does not apply")
   case "$r" in
     *"does not apply"*) echo "STALE    $n :: patch no longer applies to /repo HEAD (rebase it)";;
